@@ -32,8 +32,10 @@ type wireSchema struct {
 	Text string          `json:"text,omitempty"`
 	Nm   json.RawMessage `json:"nm,omitempty"`
 	// C12: a schema with imports - the imported file's text; both texts carry @ROOTPKG@ / @DEPPKG@ placeholders
-	DepText  string `json:"deptext,omitempty"`
-	DepTextC string `json:"deptextc,omitempty"` // for combined mode: without a go_package of its own
+	DepText   string `json:"deptext,omitempty"`
+	DepTextC  string `json:"deptextc,omitempty"` // for combined mode: without a go_package of its own
+	Dep2Text  string `json:"dep2text,omitempty"` // a second imported file (package name = the first one's + "x")
+	Dep2TextC string `json:"dep2textc,omitempty"`
 }
 
 type wireCase struct {
@@ -312,12 +314,17 @@ func runWirePart(c *Ctx, work string, sp *WireSpec) (Coverage, int, error) {
 				continue
 			}
 			var x struct {
-				Site string   `json:"site"`
-				Dep  []string `json:"dep"`
-				Depc []string `json:"depc"`
+				Site  string   `json:"site"`
+				Dep   []string `json:"dep"`
+				Depc  []string `json:"depc"`
+				Dep2  []string `json:"dep2"`
+				Dep2c []string `json:"dep2c"`
 			}
 			_ = json.Unmarshal(nc.Extra, &x)
 			is := &wireSchema{Sid: 920000 + i, Defs: json.RawMessage("[]"), Tag: x.Site, Ctx: "impuse", Ft: boolT, Text: ast.Render(nc.Tokens, ast.Layouts[0]), DepText: ast.Render(x.Dep, ast.Layouts[0]), DepTextC: ast.Render(x.Depc, ast.Layouts[0])}
+			if len(x.Dep2) > 0 {
+				is.Dep2Text, is.Dep2TextC = ast.Render(x.Dep2, ast.Layouts[0]), ast.Render(x.Dep2c, ast.Layouts[0])
+			}
 			run.schemas = append(run.schemas, is)
 			bySid[is.Sid] = len(run.schemas) - 1
 			for k, opts := range impOpts {
@@ -361,7 +368,7 @@ func runWirePart(c *Ctx, work string, sp *WireSpec) (Coverage, int, error) {
 			p.Text = run.schemas[bySid[cs.Sid]].Text
 			if dt := run.schemas[bySid[cs.Sid]].DepText; dt != "" {
 				// the go_package of each file is the import path of its package inside the workspace module
-				fill := strings.NewReplacer("@ROOTPKG@", "verifwork/gen/"+cs.Pid, "@DEPPKG@", "verifwork/gen/"+cs.Pid+"d")
+				fill := strings.NewReplacer("@ROOTPKG@", "verifwork/gen/"+cs.Pid, "@DEPPKG@", "verifwork/gen/"+cs.Pid+"d", "@DEP2PKG@", "verifwork/gen/"+cs.Pid+"dx")
 				p.Text = fill.Replace(p.Text)
 				combined := false
 				var depOpts []string
@@ -375,6 +382,16 @@ func runWirePart(c *Ctx, work string, sp *WireSpec) (Coverage, int, error) {
 				p.Files = map[string]string{"dep.bop": fill.Replace(dt)}
 				if combined {
 					p.Files["dep.bop"] = run.schemas[bySid[cs.Sid]].DepTextC
+				}
+				if d2 := run.schemas[bySid[cs.Sid]].Dep2Text; d2 != "" {
+					p.Files["dep2.bop"] = fill.Replace(d2)
+					if combined {
+						p.Files["dep2.bop"] = run.schemas[bySid[cs.Sid]].Dep2TextC
+					} else {
+						dp2 := &genrun.Plan{Pid: cs.Pid + "dx", Sid: cs.Sid, Text: fill.Replace(d2), Opts: depOpts}
+						plans[dp2.Pid] = dp2
+						planList = append(planList, dp2)
+					}
 				}
 				if !combined {
 					dp := &genrun.Plan{Pid: cs.Pid + "d", Sid: cs.Sid, Text: fill.Replace(dt), Opts: depOpts}
